@@ -187,3 +187,12 @@ pub fn install_sodium() {
     }
     paseto_v4_sodium::ensure_init().expect("sodium init");
 }
+
+/// draws logged since draw index `from` (the log is left in place)
+pub fn take_log_since(from: usize) -> Vec<Draw> {
+    RNG.with(|r| r.borrow().log.iter().filter(|d| d.index >= from).cloned().collect())
+}
+
+pub fn set_logging(on: bool) {
+    RNG.with(|r| r.borrow_mut().logging = on);
+}
